@@ -32,6 +32,9 @@ pub mod c19;
 pub mod c20;
 pub mod c21;
 pub mod c22;
+pub mod c32;
+pub mod c33;
+pub mod c35;
 
 pub fn dispatch(cfg: &Cfg) -> Option<Outcome> {
     Some(match cfg.prop.as_str() {
@@ -66,6 +69,9 @@ pub fn dispatch(cfg: &Cfg) -> Option<Outcome> {
         "C20" => c20::run(cfg),
         "C21" => c21::run(cfg),
         "C22" => c22::run(cfg),
+        "C32" => c32::run(cfg),
+        "C33" => c33::run(cfg),
+        "C35" => c35::run(cfg),
         _ => return None,
     })
 }
